@@ -49,6 +49,8 @@ func main() {
 		err = c15Child(*replay, *out, *n)
 	case "c10":
 		err = c10Main(*seed, *n, *out)
+	case "c02stress":
+		err = c02Stress(*n, *out)
 	case "c16":
 		err = c16Main(*seed, *n, *out)
 	case "c11":
